@@ -462,6 +462,19 @@ op('diag', lambda rng, D, P, t: [U(rand_coeffs(rng, (D, P, rng.randint(1, 3)), -
    lambda z: np.diag(z[0]), tags=('shape',))
 op('diag:extract', lambda rng, D, P, t: [U(rand_coeffs(rng, (D, P, rng.randint(1, 4), rng.randint(1, 4)), -2, 2))], lambda a: algopy.diag(a[0]),
    lambda z: np.diag(z[0]), tags=('shape',))
+def _gen_diag_k(rng, D, P, tier):
+    """the k-th diagonal of square, tall and wide matrices, every offset NumPy accepts (also the outermost ones of length 1)"""
+    m, n = rng.choice([(3, 3), (3, 5), (5, 3), (2, 4), (4, 2), (1, 4), (4, 1)])
+    return [U(rand_coeffs(rng, (D, P, m, n), -2, 2)), Kp(rng.randint(-(m - 1), n - 1))]
+
+
+op('diag:extract-k', _gen_diag_k, lambda a: algopy.diag(a[0], k=a[1]), lambda z: np.diag(z[0], k=z[1]), tags=('shape',))
+op('diag:build-k', lambda rng, D, P, t: [U(rand_coeffs(rng, (D, P, rng.randint(1, 3)), -2, 2)), Kp(rng.randint(-2, 2))], lambda a: algopy.diag(a[0], k=a[1]),
+   lambda z: np.diag(z[0], k=z[1]), tags=('shape',))
+op('tril:k', lambda rng, D, P, t: [U(rand_coeffs(rng, (D, P) + rng.choice([(3, 3), (2, 4), (4, 2)]), -2, 2)), Kp(rng.randint(-2, 2))], lambda a: algopy.tril(a[0], k=a[1]),
+   lambda z: np.tril(z[0], k=z[1]), tags=('shape',))
+op('triu:k', lambda rng, D, P, t: [U(rand_coeffs(rng, (D, P) + rng.choice([(3, 3), (2, 4), (4, 2)]), -2, 2)), Kp(rng.randint(-2, 2))], lambda a: algopy.triu(a[0], k=a[1]),
+   lambda z: np.triu(z[0], k=z[1]), tags=('shape',))
 op('triu', lambda rng, D, P, t: [U(gen_square(rng, D, P, rng.randint(1, 3)))], lambda a: algopy.triu(a[0]),
    lambda z: np.triu(z[0]), tags=('shape',))
 op('tril', lambda rng, D, P, t: [U(gen_square(rng, D, P, rng.randint(1, 3)))], lambda a: algopy.tril(a[0]),
@@ -666,6 +679,20 @@ op('svd', _gen_svd, lambda a: algopy.svd(a[0]), None, tags=('linalg', 'factor'))
 # data of order 2^-34 with the documented threshold keyword scaled accordingly (power-of-two scaling is exact)
 op('svd:eps', lambda rng, D, P, t: _gen_svd(rng, D, P, t, 2.0 ** -34), lambda a: algopy.svd(a[0], epsilon=1e-8 * 2.0 ** -34), None,
    tags=('linalg', 'factor'))
+
+
+def _gen_svd_scales(rng, D, P, tier):
+    """directions of very different magnitude (exact power-of-two scaling of whole directions): a decision taken for one direction
+    (coinciding / vanishing singular values in the reverse sweep) must not depend on the size of another one"""
+    x = _gen_svd(rng, D, P, tier)[0]['v']
+    while x.shape[2] > x.shape[3]:
+        x = _gen_svd(rng, D, P, tier)[0]['v']
+    for p in range(1, P):
+        x[:, p] *= 2.0 ** (14 * p)
+    return [U(x)]
+
+
+op('svd:scales', _gen_svd_scales, lambda a: algopy.svd(a[0]), None, tags=('linalg', 'factor'))
 
 
 def _gen_eigh_closegap(rng, D, P, tier):
